@@ -366,9 +366,9 @@ impl Write for OneByteWriter {
 // ---------------------------------------------------------------------------
 // Families
 
-pub const FAMILIES: [&str; 14] = [
+pub const FAMILIES: [&str; 16] = [
     "truncation", "byte-substitution", "u32-field", "chunk-ops", "xml-mutation", "read-script-1", "read-script-2", "write-fault",
-    "attr-all-bytes", "xml-all-strings", "header-variants", "deep-xml", "chunk-splice", "one-byte-io",
+    "attr-all-bytes", "xml-all-strings", "header-variants", "deep-xml", "chunk-splice", "one-byte-io", "chunk-payload-cut", "chunk-payload-delete-byte",
 ];
 
 const SUBST: [u8; 5] = [0x00, 0x01, 0x7f, 0x80, 0xff];
@@ -470,6 +470,8 @@ pub struct Engine {
     splices: Vec<(usize, usize, usize, usize)>,
     read_calls: Vec<usize>,
     write_targets: Vec<(usize, u8, usize)>,
+    /// (file, chunk, position): every position inside every chunk payload of the uncompressed corpus files
+    payload_pos: Vec<(usize, usize, usize)>,
 }
 
 fn xml_len(tier: Tier) -> u32 {
@@ -539,7 +541,18 @@ impl Engine {
                 write_targets.push((p, 3, b.len()));
             }
         }
-        Engine { corpus, tier, bin, xml, attr, xml_muts, chunk_ops, splices, read_calls, write_targets }
+        let mut payload_pos = Vec::new();
+        for &f in &bin {
+            if !corpus.files[f].desc.ends_with("/None") {
+                continue;
+            }
+            for (ci, (start, end)) in chunk_table(&corpus.files[f].bytes).into_iter().enumerate() {
+                for pos in 0..(end - start - 16) {
+                    payload_pos.push((f, ci, pos));
+                }
+            }
+        }
+        Engine { corpus, tier, bin, xml, attr, xml_muts, chunk_ops, splices, read_calls, write_targets, payload_pos }
     }
 
     fn files_of(&self, family: usize) -> Vec<usize> {
@@ -584,6 +597,7 @@ impl Engine {
             11 => 4,
             12 => self.splices.len() as u64,
             13 => (self.corpus.files.len() + self.write_targets.len()) as u64,
+            14 | 15 => self.payload_pos.len() as u64 * 3,
             _ => 0,
         }
     }
@@ -828,6 +842,27 @@ impl Engine {
                 let mut b = fb.bytes[..tb[j].0].to_vec();
                 b.extend_from_slice(&fa.bytes[ta[i].0..ta[i].1]);
                 b.extend_from_slice(&fb.bytes[tb[j].1..]);
+                judge_decode(Kind::Bin, &b, fam, false, out, &replay);
+            }
+            14 | 15 => {
+                // a chunk whose payload is shorter than its content needs, in a correctly framed file:
+                // the payload is cut at `pos` (14) or loses the byte at `pos` (15), the header length is
+                // fixed up, and the chunk is stored uncompressed / as LZ4 literals / as a raw zstd frame
+                let (f, ci, pos) = self.payload_pos[(index / 3) as usize];
+                let comp = [crate::specbin::enc::Comp::None, crate::specbin::enc::Comp::Lz4Literal, crate::specbin::enc::Comp::ZstdRaw][(index % 3) as usize];
+                let file = &self.corpus.files[f];
+                let t = chunk_table(&file.bytes);
+                let (start, end) = t[ci];
+                let payload = &file.bytes[start + 16..end];
+                let mut np = payload[..pos].to_vec();
+                if family == 15 {
+                    np.extend_from_slice(&payload[pos + 1..]);
+                }
+                let mut name = [0u8; 4];
+                name.copy_from_slice(&file.bytes[start..start + 4]);
+                let mut b = file.bytes[..start].to_vec();
+                b.extend(crate::specbin::enc::frame_chunk(&name, &np, comp));
+                b.extend_from_slice(&file.bytes[end..]);
                 judge_decode(Kind::Bin, &b, fam, false, out, &replay);
             }
             13 => {
